@@ -1,13 +1,20 @@
 #!/bin/bash
-# Re-evaluates which checks fire on every confirmed seeded change (scratch worktree, never /repo itself),
-# updates seeded/<id>/meta.json "detection" and prints the matrix.
+# Re-evaluates which checks fire on every confirmed seeded change (scratch worktrees, never /repo itself),
+# updates seeded/<id>/meta.json "detection" and prints the matrix. Runs SHARDS shards side by side, each in
+# its own worktree, all with one copy of the analyser taken at the start (a rebuild meanwhile changes nothing).
 cd /verif
-for d in seeded/*/; do
-  id=$(basename $d)
-  out=$(tools/trypatch.sh $d/patch.diff all --evidence-dir /tmp/wt/seedmatrix-ev 2>&1)
-  fired=$(echo "$out" | grep -o "VIOLATION property=C[0-9]*" | sed 's/VIOLATION property=//' | sort -u | tr '\n' ' ')
-  rules=$(echo "$out" | grep -E "^  (violated|undecided) \[" | sed -E 's/^  (violated|undecided) \[([A-Z-]+)\].*/\2/' | sort -u | tr '\n' ' ')
-  python3 - "$d/meta.json" "$fired" "$rules" <<'PY'
+SHARDS=${SHARDS:-6}
+mkdir -p /tmp/wt
+cp bin/jpverif /tmp/wt/jpverif-matrix
+export JPVERIF=/tmp/wt/jpverif-matrix
+shard() {
+  k=$1; n=0
+  for d in seeded/*/; do
+    n=$((n+1)); [ $((n % SHARDS)) -eq $k ] || continue
+    out=$(WT=/tmp/wt/mx$k tools/trypatch.sh $d/patch.diff all --evidence-dir /tmp/wt/seedmatrix-ev$k 2>&1)
+    fired=$(echo "$out" | grep -o "VIOLATION property=C[0-9]*" | sed 's/VIOLATION property=//' | sort -u | tr '\n' ' ')
+    rules=$(echo "$out" | grep -E "^  (violated|undecided) \[" | sed -E 's/^  (violated|undecided) \[([A-Z-]+)\].*/\2/' | sort -u | tr '\n' ' ')
+    python3 - "$d/meta.json" "$fired" "$rules" <<'PY'
 import json,sys
 p,fired,rules=sys.argv[1:4]
 m=json.load(open(p))
@@ -16,5 +23,10 @@ m['detection']={'checks_fired':fired,'rules_fired':rules,'detected_by_own_proper
 json.dump(m,open(p,'w'),indent=1)
 print("%-8s %-4s own=%-5s fired=%-40s rules=%s"%(m['seed_id'],m['property'],m['property'] in fired,",".join(fired),",".join(rules)))
 PY
-done
-rm -rf /tmp/wt/seedmatrix-ev
+  done
+  rm -rf /tmp/wt/seedmatrix-ev$k
+  git -C /repo worktree remove --force /tmp/wt/mx$k 2>/dev/null
+}
+for k in $(seq 0 $((SHARDS-1))); do shard $k & done
+wait
+rm -f /tmp/wt/jpverif-matrix
